@@ -26,8 +26,10 @@ def run(ctx):
     st, tr, dinfo, _ = L.design(ctx, by_name, with_guard=False)
     tot, samples = L.replay(ctx, files, "both", ["C11."], explore_bound=0, maxcalls=300000 if q else 600000,
                             nwalks=15 if q else 60, walklen=50 if q else 120, maxpar=8 if q else 12)
+    curved = [] if L.skip("fixtures") else L.curved_files(ctx, 2 if q else 30)
     ftot, fsamples = L.fixtures(ctx, ["C11."], nrays=0, nwalks=100 if q else 2000,
-                                nprobes=250 if q else 12000, maxpar=8 if q else 12, nshards=6 if q else 12)
+                                nprobes=250 if q else 12000, maxpar=8 if q else 12, nshards=6 if q else 12,
+                                extra_files=curved)
     fs = ftot["stat"]
     ctx.coverage.update({
         "traces_validated_against_impl": tot["traces"] + ftot["fixtures"],
@@ -41,7 +43,7 @@ def run(ctx):
         "design": dinfo,
         "lattice": {k: tot[k] for k in ("traces", "calls", "safety", "safety_pos", "states", "exhaustive_worlds",
                                          "truncated_worlds", "other_clauses")},
-        "lattice_worlds": len(files),
+        "lattice_worlds": len(files), "curved_worlds": len(curved),
         "fixtures": {"fixtures": ftot["fixtures"], "safety_calls": fs.get("Safety", 0), "rays": fs.get("rays", 0),
                      "sphere_points": fs.get("sphere_pts", 0), "discarded": ftot["discarded"], "skipped": ftot["skipped"],
                      "other_clauses": ftot["other_clauses"]},
